@@ -264,7 +264,8 @@ def validate_trace(spec_dir, module, cfg, trace_file, work, tag, timeout=1800, h
         return dict(accepted=True, matched=n, total=n, out=out)
     if rc in (10, 12, 13):  # postcondition false / assumption / invariant
         return dict(accepted=False, matched=matched, total=n, out=out)
-    raise Broken("TLC trace validation failed on %s (exit %d):\n%s" % (module, rc, out[-3000:]))
+    i = out.find("Error:")
+    raise Broken("TLC trace validation failed on %s (exit %d):\n%s\n...\n%s" % (module, rc, out[max(0, i - 200):i + 1800], out[-600:]))
 
 
 def validate_executions(spec_dir, module, cfg, projs, work, max_rejects=6, tag="p3", env_extra=None):
